@@ -6,19 +6,23 @@ UNITS = [
 ]
 B_SEC = '4 sections in by-order sequence; alignment 2^0..2^16 each (text also 0); virtual size all 2^64 values; '
 HARNESSES = [
-    Harness('layout', 'h_flatten', unwind=17, bounds=B_SEC + 'buffer size 0..16', mem_gb=4, timeout=600),
-    Harness('layout', 'h_flatten_kf_C10a', unwind=17, known='C10a', bounds=B_SEC + 'buffer size 0..16; confined to: an empty section receives alignment padding as virtual size', mem_gb=4, timeout=600),
-    Harness('layout', 'h_flatten_copy', unwind=49, bounds=B_SEC + 'buffer size 0..8 with symbolic bytes; destination size 0..32 inside 8+8 guard bytes with symbolic previous content; all 2^32 CopySectionFlags values', mem_gb=6, timeout=900),
-    Harness('layout', 'h_flatten_copy_big', unwind=81, bounds=B_SEC + 'buffer size 0..16; destination size 0..64; all flags', mem_gb=8, timeout=2400, tiers=('thorough',)),
-    Harness('layout', 'h_copy_arbitrary', unwind=49, bounds=B_SEC + 'buffer size 0..8; section offsets all 2^64 values (overlapping / unset included); destination 0..32', mem_gb=6, timeout=900),
-    Harness('newsect', 'h_new_section', unwind=6, bounds='1..3 existing sections in any (order,id)-sorted sequence with symbolic int32 orders; new order int32, alignment uint32, flags 16 bit, name size 0..39 or strlen', mem_gb=4, timeout=600),
+    Harness('layout', 'h_flatten', unwind=17, bounds=B_SEC + 'buffer size 0..16', mem_gb=1, timeout=900),
+    Harness('layout', 'h_flatten_kf_C10a', unwind=17, known='C10a', bounds=B_SEC + 'buffer size 0..16; confined to: an empty section receives alignment padding as virtual size', mem_gb=1, timeout=900),
+    Harness('layout', 'h_flatten_copy', unwind=41, bounds=B_SEC + 'buffer size 0..6 with symbolic bytes; destination size 0..24 inside 8+8 guard bytes with symbolic previous content; all 2^32 CopySectionFlags values', mem_gb=3, timeout=900),
+    Harness('layout', 'h_flatten_copy_mid', unwind=49, bounds=B_SEC + 'buffer size 0..8; destination size 0..32; all flags', mem_gb=4, timeout=1800, tiers=('thorough',)),
+    Harness('layout', 'h_flatten_copy_big', unwind=81, bounds=B_SEC + 'buffer size 0..16; destination size 0..64; all flags', mem_gb=8, timeout=3600, tiers=('thorough',)),
+    Harness('layout', 'h_copy_arbitrary', unwind=41, bounds=B_SEC + 'buffer size 0..6; section offsets all 2^64 values (overlapping / unset included); destination 0..24', mem_gb=3, timeout=900),
+    Harness('layout', 'h_copy_arbitrary_mid', unwind=49, bounds=B_SEC + 'buffer size 0..8; section offsets all 2^64 values; destination 0..32', mem_gb=4, timeout=1800, tiers=('thorough',)),
+    Harness('newsect', 'h_new_section', unwind=6, bounds='1..3 existing sections in any (order,id)-sorted sequence with symbolic int32 orders; new order int32, alignment uint32, flags 16 bit, name size 0..39 or strlen', mem_gb=2, timeout=600),
     # size estimated before relocation >= size after it, and after == estimate - RelocationSummary.code_size_reduction (the C04 address-table harness)
-    Harness('relocsize', 'h_addrtab_one', unwind=33, bounds='x86-64; one call/jmp site, target and base all 2^64; .text + user section before or after .addrtab; flatten, code_size, relocate_to_base, code_size', mem_gb=6, timeout=900),
+    Harness('relocsize', 'h_addrtab_one', unwind=33, bounds='x86-64; one call/jmp site, target and base all 2^64; .text + user section before or after .addrtab; flatten, code_size, relocate_to_base, code_size', mem_gb=2, timeout=900),
 ]
 EXPLANATION = 'bounded symbolic execution (CBMC) of the real CodeHolder::flatten / code_size / copy_flattened_data / new_section / relocate_to_base compiled from /repo, from directly constructed section tables; oracles are exact-arithmetic layout rules and a byte-by-byte image specification written in the harness'
-OUTSIDE = ['more than 4 sections (the loops are uniform in the section count)', 'section buffers larger than 16 bytes / destinations larger than 96 bytes',
+OUTSIDE = ['more than 4 sections (the loops are uniform in the section count)', 'section buffers larger than 16 bytes / destinations larger than 64 bytes (quick tier: 6 / 24)',
            'section name termination beyond name_size (new_section does not clear _name; not part of the stated property)',
            'JitRuntime::_add (mmap side); its size bookkeeping is covered by h_reloc_size']
-ASSUMPTIONS = ['section tables are built directly in static storage (CodeHolder::init is C16); arena = one static 1 KiB block',
+ASSUMPTIONS = ['unit newsect: memmove is modelled by checks/C10/memmove_words.c (pointer-sized words when length and offsets are multiples of 8, bytes otherwise; CBMC\'s built-in model havocs pointer arrays for a symbolic length); the same C file is linked into the native twin of the generated C',
+               'Arena::_alloc_oneshot / ArenaVector growth / CodeHolder::grow_buffer are stubs that assert they are not reached (include/ch_env.h); arena block end is the highest address (see ch_env.h)',
+               'section tables are built directly in static storage (CodeHolder::init is C16); arena = one static 1 KiB block',
                'copy_flattened_data is specified against the state flatten() leaves (it is documented for flattened code only); h_copy_arbitrary covers every other state for memory safety and the refusal rule',
                '"too small" for copy_flattened_data = some section buffer [offset, offset+buffer_size) does not lie inside the destination; virtual-size-only tails are truncated to the destination, as documented']
